@@ -73,13 +73,75 @@ def make_cases(ctx, n):
     return cases
 
 
+def content_shapes(ctx, n):
+    """Larger files whose CONTENT has a shape a writer or reader might treat specially: long runs of zero bytes (whole file, at
+    the start, in the middle, at the end, a whole last block), long runs of one byte, a block repeated, sizes at and around the
+    block size; with block sizes from a few KiB to the default.  Direct oracle only: the restored bytes are the source bytes."""
+    cases = []
+    for t in range(n):
+        mbs = ctx.rng.choice([4096, 8192, 65536, 20 << 20])
+        sfc = ctx.rng.choice([0, 4096, 1 << 20])
+
+        def rnd(k):
+            return bytes(ctx.rng.randrange(1, 256) for _ in range(k))
+        z = lambda k: bytes(k)
+        shapes = {
+            "all_zeros_small": z(ctx.rng.choice([4096, 5000, 7000])),
+            "all_zeros_blocks": z(mbs * 2 if mbs <= 65536 else 3 * 65536),
+            "zeros_at_end": rnd(700) + z(ctx.rng.choice([4096, 6000, 9000])),
+            "zero_last_block": (rnd(mbs) + z(mbs)) if mbs <= 65536 else rnd(5000) + z(70000),
+            "zeros_at_start": z(ctx.rng.choice([4096, 9000])) + rnd(300),
+            "zeros_in_the_middle": rnd(500) + z(8192) + rnd(500),
+            "one_byte_run": b"\xff" * ctx.rng.choice([4096, 10000]),
+            "block_repeated": rnd(mbs if mbs <= 8192 else 4096) * 3,
+            "just_below_block": rnd(max(1, min(mbs, 65536) - 1)),
+            "just_above_block": rnd(min(mbs, 65536) + 1),
+            "short_zeros": z(100),
+            "one_zero": z(1),
+        }
+        tree = {"k": "d", "mode": 0o755, "mtime": 10**18, "c": {
+            nm: {"k": "f", "data": d.hex(), "mode": 0o644, "mtime": 10**18 + i} for i, (nm, d) in enumerate(sorted(shapes.items()))}}
+        opts = {"meph": ctx.rng.choice([3, 100000]), "mbs": mbs, "sfc": sfc}
+        steps = [{"op": "init"}, {"op": "mktree", "path": "src", "tree": tree}, {"op": "snap", "path": "src"},
+                 {"op": "backup", "opts": opts}, {"op": "restore", "dest": "out"}]
+        cases.append({"id": f"z{t}", "tree": tree, "opts": opts, "steps": steps})
+    res = ctx.cvh_run(cases)
+    for c in cases:
+        r = res.get(c["id"])
+        ctx.count()
+        small = {"opts": c["opts"], "steps": c["steps"]}
+        if r is None:
+            ctx.oracle_fail("roundtrip/harness-died", "harness died or hung", small)
+            continue
+        snap, bk, rs = r[2], r[3], r[4]
+        if bk.get("panic") or rs.get("panic"):
+            ctx.oracle_fail("roundtrip/panic", f"backup or restore crashed: {(bk.get('panic') or rs.get('panic'))[:200]}", small)
+            continue
+        if bk.get("result") != "ok" or bk.get("monitor_errors") or rs.get("result") != "ok" or rs.get("monitor_errors"):
+            ctx.oracle_fail("roundtrip/restore-error", "backup or restore of shaped contents returned or reported errors: "
+                            + json.dumps(bk.get("err") or bk.get("monitor_errors") or rs.get("err") or rs.get("monitor_errors"))[:300], small)
+            continue
+        d = first_difference(snap.get("tree"), rs.get("tree"))
+        if d and d[1] == "data":
+            a, b = bytes.fromhex(d[2] or ""), bytes.fromhex(d[3] or "")
+            ctx.oracle_fail("roundtrip/bytes", f"{d[0]} ({len(a)} bytes in the source) restored as {len(b)} bytes"
+                                               f"{'' if len(a) != len(b) else ' with other content'} (options {c['opts']})", small)
+            continue
+        if d:
+            ctx.oracle_fail("roundtrip/paths", f"restored tree differs from the source at {d[:2]}", small)
+            continue
+        ctx.dist("content_shape_trees")
+        ctx.nontrivial("shapes:" + json.dumps(c["opts"]))
+
+
 def run(ctx):
     quick = ctx.tier == "quick"
+    content_shapes(ctx, 6 if quick else 60)
     cases = make_cases(ctx, 120 if quick else 4000)
     ctx.cov["rule"] = ("generated trees (depth<=4; names non-ASCII / leading dots / bytes below and above '/'; file sizes 0, around the "
                        "small-file threshold, multiples of the block size +-1, duplicate contents; modes drawn from all of 0..0o7777 with a bias "
                        "to setuid/setgid/sticky; mtimes {<0,0,>0} x {nanos 0, !=0}; owners root/daemon/bin/sys/nobody) x option triples; "
-                       "direct oracle: restored snapshot == source snapshot, no errors; model: walk_q vs the walk (L2), enc_time_floor vs stored "
+                       "direct oracle: restored snapshot == source snapshot, no errors; + larger files with content shapes (runs of zeros at the start / middle / end / a whole last block, one-byte runs, repeated blocks, sizes around the block size) restored byte for byte; model: walk_q vs the walk (L2), enc_time_floor vs stored "
                        "mtime fields, read_addrs over the decoded archive == source bytes and file_addrs == stored addresses for large files. "
                        "non-trivial = distinct (tree, options) with at least one non-empty file")
     res = ctx.cvh_run(cases)
